@@ -2,6 +2,9 @@
    CTMCGrid.left_point / right_point / middle(float, float) of rpylib/grid/spatial.py and create_q_vector of
    rpylib/distribution/samplingfactory.py, its numpy loop included) are equal to the hand models Model/Grid.v
    (left_point, right_point, amid) and Model/Chain.v (q_vector) that the C01 / C13 / C04 theorems are about.
+   TIE2: compute_intensity_of_jumps specialised to a 1-d model (list comprehension, enumerate(zip(..)),
+   itertools.product over the intervals, next(..) and the loop over the remaining blocks unrolled at translation time) is equal
+   to Chain.intensity1, the total jump rate of the C01 / C19 theorems.
    Python ints are Z in the generated code and nat in the hand models: the lemmas are stated at Z.of_nat. *)
 From Coq Require Import ZArith QArith List Bool Lia.
 From RV Require Import Base.QB Proofs.Tie_PyLoops Model.Grid Model.Chain Gen.GenTieChain.
@@ -52,4 +55,22 @@ Example gen_create_q_vector_runs :
   let mass := fun a b => b - a in
   GenTieChain.create_q_vector mass GenTieChain.middle xs 2 = Chain.q_vector Grid.amid mass xs 2
   /\ map Qred (GenTieChain.create_q_vector mass GenTieChain.middle xs 2) = [1#2; 1#1; 0; 3#2; 1#1].
+Proof. split; vm_compute; reflexivity. Qed.
+
+(* TIE2 -- compute_intensity_of_jumps, 1-d model: the two blocks [x_0, h_l], [h_r, x_n] that itertools.product leaves after
+   next(..) dropped [h_l, h_r], their masses added from 0 in that order *)
+Theorem gen_compute_intensity_of_jumps_1d_eq_model (mass mid : Q -> Q -> Q) xs (o : nat) :
+  GenTieChain.compute_intensity_of_jumps_1d mass mid xs (Z.of_nat o) = Chain.intensity1 mid mass xs o.
+Proof.
+  unfold GenTieChain.compute_intensity_of_jumps_1d, Chain.intensity1, Chain.h_left, Chain.h_right. cbv zeta.
+  rewrite gen_left_point_eq_model, gen_right_point_eq_model.
+  change (Z.opp 1%Z) with (-1)%Z. rewrite py_nth_last, py_nth_head. reflexivity.
+Qed.
+
+(* non-vacuity: mass(a, b) = b - a on the 5-point axis: [x_0, h_l] = [-2, -1/2] and [h_r, x_n] = [1/2, 3] weigh 3/2 + 5/2 *)
+Example gen_compute_intensity_of_jumps_1d_runs :
+  let xs := [-(2#1); -(1#1); 0; 1#1; 3#1] in
+  let mass := fun a b => b - a in
+  GenTieChain.compute_intensity_of_jumps_1d mass GenTieChain.middle xs 2 = Chain.intensity1 Grid.amid mass xs 2
+  /\ Qred (GenTieChain.compute_intensity_of_jumps_1d mass GenTieChain.middle xs 2) = 4#1.
 Proof. split; vm_compute; reflexivity. Qed.
